@@ -38,6 +38,7 @@ type Out struct {
 	K    Kind
 	Obj  *Obj   // object-valued fields
 	List []*Obj // list-valued fields (elements may be nil)
+	Strs []*string // lists of scalars (elements may be nil); nil slice = null list
 	Str  string // scalar String fields
 	Int  int    // scalar Int fields
 }
@@ -91,12 +92,12 @@ func ExecuteDeferred(schema *ast.Schema, doc *ast.QueryDocument, op *ast.Operati
 	return execute(schema, doc, op, vars, w, true)
 }
 
-// Execute runs operation op of doc.
 // CallArgumentDirectivesWithNull mirrors the generator option of the same
 // name (call_argument_directives_with_null): argument directives run for
 // absent / null arguments as well. Set by the probe from its configuration.
 var CallArgumentDirectivesWithNull bool
 
+// Execute runs operation op of doc.
 func Execute(schema *ast.Schema, doc *ast.QueryDocument, op *ast.OperationDefinition, vars map[string]any, w World) Result {
 	return execute(schema, doc, op, vars, w, false)
 }
@@ -437,6 +438,35 @@ func (e *exec) nullAt(t *ast.Type, path string, alreadyReported bool) (string, b
 
 // complete implements CompleteValue for a non-null resolver result.
 func (e *exec) complete(t *ast.Type, out Out, sub ast.SelectionSet, path string) (string, bool) {
+	if t.Elem != nil && t.Elem.Elem == nil && e.schema.Types[t.Elem.NamedType] != nil &&
+		(e.schema.Types[t.Elem.NamedType].Kind == ast.Scalar || e.schema.Types[t.Elem.NamedType].Kind == ast.Enum) {
+		// a list of scalars
+		if out.Strs == nil {
+			return e.nullAt(t, path, false)
+		}
+		var sb strings.Builder
+		sb.WriteByte('[')
+		ok := true
+		for i, el := range out.Strs {
+			if i > 0 {
+				sb.WriteByte(',')
+			}
+			if el == nil {
+				v, fine := e.nullAt(t.Elem, path+"["+strconv.Itoa(i)+"]", false)
+				if !fine {
+					ok = false
+				}
+				sb.WriteString(v)
+			} else {
+				sb.WriteString(strconv.Quote(*el))
+			}
+		}
+		sb.WriteByte(']')
+		if !ok {
+			return e.nullAt(t, path, true)
+		}
+		return sb.String(), true
+	}
 	if t.Elem != nil {
 		if out.List == nil {
 			return e.nullAt(t, path, false)
